@@ -566,6 +566,60 @@ def laplacian_composition(chk):
         chk.canary("interpolate_laplacian", list(rets[0].pc))
 
 
+def public_wrappers(chk):
+    """solve_poisson_bvp / solve_poisson_ivp: the caller's grid and values go to _interpolate_molgrid_helper, and the per-atom callable hands the
+    atomic grid, the atom's values and EVERY option of the caller to the atomic solver under the right parameter (positions resolved against the
+    real signature of the atomic solver)."""
+    eng = chk.eng
+    import ast as _ast
+    for which, opts in (("bvp", ["transform", "boundary", "include_origin", "remove_large_pts", "ode_params"]), ("ivp", ["transform", "r_interval", "ode_params"])):
+        fq = f"{MODP}.solve_poisson_{which}"
+        fqa = f"{MODP}._solve_poisson_{which}_atomgrid"
+        rec = {"helper": [], "atom": []}
+        markers = {o: I.Opaque("caller-option", name=o) for o in opts}
+        grid_m, vals_m, ag_m, av_m = (I.Opaque("marker", name=n) for n in ("molgrid", "func_vals", "atom_grid", "atom_values"))
+
+        def helper_contract(eng_, f, args, kwargs):
+            rec["helper"].append((list(args), dict(kwargs)))
+            cb = args[2] if len(args) > 2 else kwargs.get("interpolate_callable")
+            return eng_.call(cb, [ag_m, av_m], {})
+
+        def atom_contract(eng_, f, args, kwargs, fqa=fqa):
+            # bind the call against the real signature of the atomic solver
+            fn = eng_.get_function(MODP, fqa.rsplit(".", 1)[1])
+            names = [a.arg for a in fn.node.args.args]
+            bound = dict(zip(names, args))
+            bound.update(kwargs)
+            rec["atom"].append(bound)
+            return I.Opaque("atomic-solution")
+
+        def thunk(eng_, which=which, opts=opts):
+            rec["helper"].clear()
+            rec["atom"].clear()
+            eng_.callee_contracts[f"{MODP}._interpolate_molgrid_helper"] = helper_contract
+            eng_.callee_contracts[fqa] = atom_contract
+            try:
+                res = eng_.call(eng_.get_function(MODP, f"solve_poisson_{which}"), [grid_m, vals_m], {o: markers[o] for o in opts})
+                return res, [(list(a), dict(k)) for a, k in rec["helper"]], [dict(b) for b in rec["atom"]]
+            finally:
+                eng_.callee_contracts.pop(f"{MODP}._interpolate_molgrid_helper", None)
+                eng_.callee_contracts.pop(fqa, None)
+        outs = chk.explore(f"solve_poisson_{which}/wrapper", thunk, func=fq)
+        rets = [o for o in outs if o.kind == "return"]
+        rep = {"what": "wrapper", "solver": which}
+        chk.add(f"solve_poisson_{which}/post/returns-on-every-path", [], z3.BoolVal(bool(rets) and len(rets) == len(outs)), func=fq,
+                meta={"replay": rep, "paths": str([(o.kind, o.exc, o.note) for o in outs])})
+        for oi, o in enumerate(rets):
+            res, helper, atom = o.value
+            okh = len(helper) == 1 and len(helper[0][0]) >= 2 and helper[0][0][0] is grid_m and helper[0][0][1] is vals_m
+            chk.add(f"solve_poisson_{which}/post/grid-and-values-go-to-the-molecular-helper", [], z3.BoolVal(bool(okh)), func=fq, meta={"replay": rep})
+            oka = len(atom) == 1 and atom[0].get("atomgrid") is ag_m and atom[0].get("func_vals") is av_m and all(atom[0].get(o_) is markers[o_] for o_ in opts)
+            chk.add(f"solve_poisson_{which}/post/atomic-solver-gets-the-atoms-grid-values-and-every-option-of-the-caller", [], z3.BoolVal(bool(oka)), func=fq,
+                    meta={"replay": rep, "detail": str({k: getattr(v, "data", v) for k, v in (atom[0] if atom else {}).items()})[:300]})
+            chk.add(f"solve_poisson_{which}/post/returns-the-helpers-callable", [], z3.BoolVal(isinstance(res, I.Opaque) and res.kind == "atomic-solution"), func=fq,
+                    meta={"replay": rep})
+
+
 def radial_ode_setup(chk):
     """_solve_poisson_bvp_atomgrid / _solve_poisson_ivp_atomgrid: which ODE is handed to the ODE layer for every (l, m), and how the solutions are
     recombined.  Nested loop contracts (degrees, orders); radial splines, the ODE layer, harmonics and the coordinate conversion by contract."""
@@ -777,6 +831,7 @@ def radial_ode_setup(chk):
 
 
 def build(chk):
+    public_wrappers(chk)
     laplacian_composition(chk)
     core_density(chk)
     robust_composition(chk)
